@@ -7,11 +7,35 @@ import (
 	"strings"
 )
 
-// C02 (a session outlives its logical connections): every place in internal/server and internal/client/upstream that
-// closes a multiplexer session object (`<x>.session` or a variable named session), with the function it is in and
-// whether it runs on a per-stream goroutine (inside a `go func` literal / a function started per stream) or on the
-// session's own path.  The models close a session only when its carrier or the session itself has failed, or on
-// shutdown; a close reachable from the end of ONE logical connection takes the others (and those being opened) with it.
+// C02 (a session outlives its logical connections): is the server's multiplexer session ever closed from the
+// goroutine that serves ONE logical connection?  The per-stream goroutine is whatever `acceptStream` starts with `go`
+// for an accepted stream (a function literal or a method); calls into functions and methods of package server are
+// followed (four levels).  A close is `TryClose(x)`, `LogClose(x)` or `x.Close()` with x = `<recv>.session` or a
+// variable named `session`.  The close sites of both packages are also listed (function and what is closed) for the
+// reader; only the boolean is pinned by a theorem, so moving a close into a helper changes nothing.
+func c02SessionCloseIn(n ast.Node) []string {
+	var out []string
+	ast.Inspect(n, func(m ast.Node) bool {
+		c, ok := m.(*ast.CallExpr)
+		if !ok {
+			return true
+		}
+		fn := src(c.Fun)
+		target := ""
+		switch {
+		case (strings.HasSuffix(fn, "TryClose") || strings.HasSuffix(fn, "LogClose")) && len(c.Args) == 1:
+			target = src(c.Args[0])
+		case strings.HasSuffix(fn, ".Close") && len(c.Args) == 0:
+			target = strings.TrimSuffix(fn, ".Close")
+		}
+		if target == "session" || strings.HasSuffix(target, ".session") {
+			out = append(out, target)
+		}
+		return true
+	})
+	return out
+}
+
 func init() {
 	extractors = append(extractors, func(o *out) {
 		b := o.w("C02SessClose.lean")
@@ -23,50 +47,62 @@ func init() {
 					continue
 				}
 				for _, d := range af.Decls {
-					fd, ok := d.(*ast.FuncDecl)
-					if !ok || fd.Body == nil {
-						continue
+					if fd, ok := d.(*ast.FuncDecl); ok && fd.Body != nil {
+						for _, t := range c02SessionCloseIn(fd.Body) {
+							sites = append(sites, fmt.Sprintf("%s %s %s", strings.TrimPrefix(f, "internal/"), fd.Name.Name, t))
+						}
 					}
-					var walk func(n ast.Node, where string)
-					walk = func(n ast.Node, where string) {
-						ast.Inspect(n, func(m ast.Node) bool {
-							switch x := m.(type) {
-							case *ast.GoStmt:
-								if fl, ok := x.Call.Fun.(*ast.FuncLit); ok {
-									walk(fl.Body, "go")
-									for _, a := range x.Call.Args {
-										walk(a, where)
-									}
-									return false
-								}
-							case *ast.CallExpr:
-								fn := src(x.Fun)
-								target := ""
-								switch {
-								case (strings.HasSuffix(fn, "TryClose") || strings.HasSuffix(fn, "LogClose")) && len(x.Args) == 1:
-									target = src(x.Args[0])
-								case strings.HasSuffix(fn, ".Close") && len(x.Args) == 0:
-									target = strings.TrimSuffix(fn, ".Close")
-								}
-								if target == "session" || strings.HasSuffix(target, ".session") {
-									sites = append(sites, fmt.Sprintf("%s %s %s:%s", strings.TrimPrefix(f, "internal/"), fd.Name.Name, target, where))
-								}
-							}
-							return true
-						})
-					}
-					walk(fd.Body, "own")
 				}
 			}
 		}
 		sort.Strings(sites)
-		onStream := false
-		for _, s := range sites {
-			if strings.HasPrefix(s, "server/") && strings.HasSuffix(s, ":go") {
-				onStream = true
+		// the per-stream goroutine(s) of acceptStream and everything they reach inside the package
+		onStream, found := false, false
+		as := findFunc(parse("internal/server/communicator.go"), "ConnectionHandler", "acceptStream")
+		if as == nil || as.Body == nil {
+			fail("communicator.go: ConnectionHandler.acceptStream not found")
+		} else {
+			seen := map[*ast.FuncDecl]bool{}
+			var visit func(cur *ast.FuncDecl, n ast.Node, depth int)
+			visit = func(cur *ast.FuncDecl, n ast.Node, depth int) {
+				if len(c02SessionCloseIn(n)) > 0 {
+					onStream = true
+				}
+				if depth >= 4 {
+					return
+				}
+				ast.Inspect(n, func(m ast.Node) bool {
+					if c, ok := m.(*ast.CallExpr); ok {
+						if cal := c02Callee(cur, c.Fun); cal != nil && cal.Body != nil && !seen[cal] {
+							seen[cal] = true
+							visit(cal, cal.Body, depth+1)
+						}
+					}
+					return true
+				})
+			}
+			ast.Inspect(as.Body, func(m ast.Node) bool {
+				g, ok := m.(*ast.GoStmt)
+				if !ok {
+					return true
+				}
+				found = true
+				if fl, ok := g.Call.Fun.(*ast.FuncLit); ok {
+					visit(as, fl.Body, 0)
+				} else if cal := c02Callee(as, g.Call.Fun); cal != nil && cal.Body != nil {
+					seen[cal] = true
+					visit(cal, cal.Body, 1)
+				} else {
+					fail("communicator.go acceptStream: the function started with `go` cannot be resolved: %s", src(g.Call.Fun))
+				}
+				return false
+			})
+			if !found {
+				// no per-stream goroutine at all: the handler runs on the accept loop (C02's other fact says so); what it
+				// reaches is then what the loop itself reaches — nothing to add here
 			}
 		}
-		fmt.Fprintf(b, "/-- every close of a multiplexer session object in internal/server and internal/client/upstream:\n    `<file> <function> <what is closed>:<own|go>` (go = inside a goroutine literal started by that function) -/\ndef sessionCloseSites : List String := %s\n", leanStrList14(sites))
-		fmt.Fprintf(b, "\n/-- is one of them in internal/server on a goroutine started per logical connection? -/\ndef serverSessionClosedOnStreamGoroutine : Bool := %v\n", onStream)
+		fmt.Fprintf(b, "/-- every close of a multiplexer session object in internal/server and internal/client/upstream (for the reader;\n    `<file> <function> <what is closed>`) -/\ndef sessionCloseSites : List String := %s\n", leanStrList14(sites))
+		fmt.Fprintf(b, "\n/-- is the server's session closed by code that runs on the goroutine acceptStream starts per logical connection\n    (that goroutine's body and the functions of package server it calls, four levels)? -/\ndef serverSessionClosedOnStreamGoroutine : Bool := %v\n", onStream)
 	})
 }
